@@ -394,7 +394,7 @@ Args:
 
 
 #XXX: add target=None to kwds?
-def _solve_zeros(equation, variables=None, implicit=True):
+def _solve_zeros(equation, variables=None, implicit=True, locals=None):
     '''symbolic solve the equation for when produces a ZeroDivisionError'''
     # if implicit = True, can solve to functions of a variable (i.e. sin(A)=1)
     res = denominator(equation, variables)#XXX: w/o this, is a general solve
@@ -403,13 +403,13 @@ def _solve_zeros(equation, variables=None, implicit=True):
     for i,eqn in enumerate(res):
         _eqn = eqn+' = 0'
         try:
-            eqn_ = solve(_eqn, target=variables, variables=x)
+            eqn_ = solve(_eqn, target=variables, variables=x, locals=locals)
             if not eqn_:
                 msg = "cannot simplify '%s'" % _eqn
                 raise ValueError(msg)
             vars = set(get_variables(eqn,x)).difference(get_variables(eqn_,x))
             while vars: # solve for missing variables
-                alt = solve(_eqn, target=vars.pop(), variables=x)
+                alt = solve(_eqn, target=vars.pop(), variables=x, locals=locals)
                 if alt: _res.append(alt) 
             _eqn = eqn_
         except ValueError:
@@ -677,7 +677,7 @@ Examples:
         allvars = get_variables(eqn, vars)
         # find where the sign flips might occur (from before)
         res = eqn.replace(cmp,'=')
-        zro = _solve_zeros(res, allvars)
+        zro = _solve_zeros(res, allvars, locals=kwds.get('locals'))
         # check which variables have been used
         lhs = lambda zro: tuple(z.split('=')[0].strip() for z in zro)
         used = lhs(zro) #XXX: better as iterator?
@@ -688,7 +688,7 @@ Examples:
         res = solve(res, target=target, **kwds)
         _eqn = res.replace('=',cmp).replace('Abs(','abs(')
         # find where the sign flips might occur (from after)
-        zro += _solve_zeros(res, get_variables(res.split('=')[-1],_allvars))
+        zro += _solve_zeros(res, get_variables(res.split('=')[-1],_allvars), locals=kwds.get('locals'))
         _zro = [z.replace('=','!=') for z in zro]
         if verbose:
             print('in: {0}'.format(eqn))
